@@ -435,7 +435,8 @@ def r8_3(ctx):
         ctx.bad("R8.3", fi.module, fi.qual, "_p_mailbox", "_p_mailbox no longer recognises INBOX case-insensitively", fi.node.lineno)
     # the list-pattern variant
     lp = p.func("parse.IMAPClientCommand._p_list_mailbox_pattern")
-    if any(isinstance(n, ast.Compare) and norm(n) == "pattern.lower() == 'inbox'" for n in body_walk(lp.node)):
+    from .common import pm_of
+    if pm_of(p, lp).has("if pattern.lower() == 'inbox':\n    return 'inbox'"):
         ctx.ok("R8.3", where(lp), "list pattern: whole-token INBOX normalisation", nontrivial=False)
     else:
         ctx.bad("R8.3", lp.module, lp.qual, "pattern.lower() == 'inbox'", "list pattern INBOX normalisation lost", lp.node.lineno)
@@ -558,9 +559,10 @@ def r8_6(ctx):
         ctx.ok("R8.6", where(pm), "pre-auth entry decodes bytes 1:1 (latin-1)")
     else:
         ctx.bad("R8.6", pm.module, pm.qual, "str(msg, 'latin-1')", "pre-auth entry no longer decodes bytes with a 1:1 codec: literal octet counts stop matching character counts", pm.node.lineno)
+    from .common import pm_of
     run = p.func("user_server.IMAPClientProxy.run")
-    dec = [s for s in body_walk(run.node) if isinstance(s, ast.Assign) and norm(s.targets[0]) == "imap_msg"]
-    if dec and all(isinstance(s.value, ast.Call) and len(s.value.args) == 2 and isinstance(s.value.args[1], ast.Constant) and s.value.args[1].value.lower() in ("latin-1", "latin1") for s in dec):
+    prun = pm_of(p, run)
+    if prun.has("msg = await self.reader.readexactly(length)") and (prun.has("imap_msg = str(msg, 'latin-1')") or prun.has("imap_msg = msg.decode('latin-1')")) and prun.has("IMAPClientCommand(imap_msg)"):
         ctx.ok("R8.6", where(run), "proxy decodes bytes 1:1 (latin-1)")
     else:
         ctx.bad("R8.6", run.module, run.qual, "imap_msg = str(msg, 'latin-1')", "proxy no longer decodes with a 1:1 codec", run.node.lineno)
@@ -574,8 +576,8 @@ def r8_6(ctx):
         ctx.bad("R8.6", st.module, st.qual, "self.ibuffer.append(b'\\r\\n')", "literal header terminator re-inserted by the front end disagrees with the parser's _lit_ref", st.node.lineno)
     # literal taken by count
     ps = p.func("parse.IMAPClientCommand._p_string")
-    txt = " ".join(norm(s, 300) for s in ps.node.body)
-    if "self.input[:literal_length]" in txt and "self.input = self.input[literal_length:]" in txt and "literal_length > len(self.input)" in txt:
+    pps = pm_of(p, ps)
+    if pps.has("literal_length = int(self._p_re(_lit_ref_re, group=1))") and pps.has("self.input[:literal_length]") and pps.has("self.input = self.input[literal_length:]") and pps.has("if literal_length > len(self.input):\n    raise BadLiteral(...)"):
         ctx.ok("R8.6", where(ps), "literal sliced by its announced count, remainder kept, short input rejected")
     else:
         ctx.bad("R8.6", ps.module, ps.qual, "literal slice by count", "_p_string no longer takes literals strictly by octet count", ps.node.lineno)
